@@ -10,8 +10,8 @@ SO2 = "oxmpl/src/base/spaces/so2_state_space.rs::"
 H = []
 
 
-def h(name, props, kind, scope, claim, functions, known_finding=None, tier="quick", timeout=300):
-    H.append(dict(name=name, props=props, kind=kind, scope=scope, claim=claim, functions=functions, known_finding=known_finding, tier=tier, timeout=timeout))
+def h(name, props, kind, scope, claim, functions, known_finding=None, tier="quick", timeout=300, optional=False):
+    H.append(dict(name=name, props=props, kind=kind, scope=scope, claim=claim, functions=functions, known_finding=known_finding, tier=tier, timeout=timeout, optional=optional))
 
 
 DOM_SO2 = "all well-formed bounds -PI <= lo < hi <= PI, all f64 states with |v + PI| < 4 PI (rem_euclid model domain)"
@@ -22,11 +22,11 @@ h("so2_enforce_then_satisfies", ["C11"], "proof", "complete", "after enforce_bou
 h("so2_enforce_identity_on_satisfying", ["C11"], "proof", "complete", "enforce_bounds leaves a canonical satisfying state unchanged bit for bit; all bounds, all canonical states", [SO2 + "enforce_bounds"])
 h("so2_sample_range_satisfies", ["C11"], "proof", "complete", "any value in [lo, hi) (random_range contract) satisfies the bounds", [SO2 + "sample_uniform", SO2 + "satisfies_bounds"])
 h("so2_dist_range_identity", ["C09"], "proof", "complete", "0 <= d(a,b) <= PI, never NaN; d(a,a) == 0; all canonical a, b", [SO2 + "distance"])
-h("so2_dist_short_arc", ["C09"], "proof", "complete", "d(a,b) is the short arc |a-b| or 2PI-|a-b| within 2e-15 (independent reference); all canonical a, b", [SO2 + "distance"], tier="thorough", timeout=1200)
+h("so2_dist_short_arc", ["C09"], "proof", "complete", "d(a,b) is the short arc |a-b| or 2PI-|a-b| within 2e-15 (independent reference); all canonical a, b", [SO2 + "distance"], tier="thorough", timeout=1200, optional=True)
 h("so2_interp_canonical", ["C10"], "proof", "complete", "interpolate returns an angle in [-PI, PI]; all canonical a, b, all t in [0,1]", [SO2 + "interpolate"])
-h("so2_interp_endpoints", ["C10"], "proof", "complete", "interpolate(a,b,0) is a up to 1e-15 (mod 2 PI); all canonical a, b", [SO2 + "interpolate"], tier="thorough", timeout=1200)
+h("so2_interp_endpoints", ["C10"], "proof", "complete", "interpolate(a,b,0) is a up to 1e-15 (mod 2 PI); all canonical a, b", [SO2 + "interpolate"], tier="thorough", timeout=1200, optional=True)
 h("so2_interp_convex", ["C04"], "proof", "complete", "premise convex_ok for SO(2): in-bounds a, b, t in [0,1] ==> interpolate(a,b,t) in bounds (1e-9 slack)", [SO2 + "interpolate"], known_finding="KF-C04-so2-short-arc")
-h("so2_interp_convex_half_circle", ["C04"], "proof", "complete", "premise convex_ok for SO(2) intervals of span <= PI", [SO2 + "interpolate"], tier="thorough", timeout=1200)
+h("so2_interp_convex_half_circle", ["C04"], "proof", "complete", "premise convex_ok for SO(2) intervals of span <= PI", [SO2 + "interpolate"], tier="thorough", timeout=1200, optional=True)
 
 FL = "f64 operators (Layer 0)"
 for n, c in [("ax_lt_irrefl", "!(a < a)"), ("ax_lt_trans", "a<b && b<c ==> a<c"), ("ax_lt_gt", "(a<b) == (b>a)"), ("ax_le_lt_trans", "<= / < transitivity mixes"),
@@ -39,7 +39,8 @@ for n, c in [("ax_lt_irrefl", "!(a < a)"), ("ax_lt_trans", "a<b && b<c ==> a<c")
 RV = "oxmpl/src/base/spaces/real_vector_state_space.rs::"
 SO3 = "oxmpl/src/base/spaces/so3_state_space.rs::"
 B2 = "bounded: dimension 2"
-h("rv_new_contract_le2", ["C12"], "proof", "bounded: dimension <= 2, bounds length <= 2",  "RealVectorStateSpace::new: Ok ==> right count, every lower < upper (no NaN); DimensionMismatch / ZeroDimensionUnbounded / InvalidBound exactly as documented; all f64 bound values", [RV + "RealVectorStateSpace::new"])
+h("rv_new_contract_le2", ["C12"], "proof", "bounded: dimension <= 2, bounds length <= 2",  "RealVectorStateSpace::new: Ok ==> right count, every lower < upper (no NaN); DimensionMismatch / ZeroDimensionUnbounded / InvalidBound exactly as documented; all f64 bound values", [RV + "RealVectorStateSpace::new"], tier="thorough", timeout=1500, optional=True)
+h("rv_new_contract_d1", ["C12"], "proof", "bounded: dimension 1, bounds length <= 2", "RealVectorStateSpace::new(1, ..): Ok ==> exactly one bound with lower < upper (no NaN); DimensionMismatch / InvalidBound exactly as documented; all f64 bound values", [RV + "RealVectorStateSpace::new"], timeout=600)
 h("rv_set_lvsf_positive", ["C06"], "proof", "complete", "set_longest_valid_segment_fraction leaves 0 < fraction <= 1 for ALL f64 arguments", [RV + "set_longest_valid_segment_fraction"], known_finding="KF-C06-lvsl-zero-rv")
 h("rv_enforce_then_satisfies_d2", ["C11", "C12"], "proof", B2, "enforce_bounds does not panic on any constructible box; afterwards satisfies_bounds holds, every coordinate is inside [lo,hi], a second enforce is the identity; all non-NaN states", [RV + "enforce_bounds", RV + "satisfies_bounds"])
 h("rv_enforce_identity_on_satisfying_d2", ["C11"], "proof", B2, "enforce_bounds leaves a state that satisfies_bounds accepts unchanged", [RV + "enforce_bounds", RV + "satisfies_bounds"], known_finding="KF-C11-rv-epsilon-band")
@@ -53,10 +54,10 @@ h("so3_new_unit_centre", ["C12"], "proof", "complete", "the stored cone centre i
 h("so3_set_lvsf_positive", ["C06"], "proof", "complete", "set_longest_valid_segment_fraction leaves 0 < fraction <= 1 for ALL f64 arguments", [SO3 + "set_longest_valid_segment_fraction"], known_finding="KF-C06-lvsl-zero-so3")
 h("so3_distance_range", ["C09"], "proof", "complete", "d is NaN (overflowing dot product) or 0 <= d <= PI; all non-NaN quaternion components (acos contract stub)", [SO3 + "distance"], timeout=600)
 h("so3_distance_unit_inputs", ["C09"], "proof", "complete", "0 <= d <= PI, never NaN; all components in [-1,1] (acos contract stub)", [SO3 + "distance"], timeout=600)
-h("so3_distance_sym_antipodal", ["C09"], "proof", "complete", "d(a,b) == d(b,a) and d(a,b) == d(a,-b) bit for bit; all components in [-1,1]", [SO3 + "distance"], tier="thorough", timeout=1500)
+h("so3_distance_sym_antipodal", ["C09"], "proof", "complete", "d(a,b) == d(b,a) and d(a,b) == d(a,-b) bit for bit; all components in [-1,1]", [SO3 + "distance"], tier="thorough", timeout=1500, optional=True)
 ST = "oxmpl/src/base/states/"
-h("so2_state_new_canonical", ["C12"], "proof", "complete", "SO2State::new(v) and normalise() return an angle in [-PI,PI]; all v with |v + PI| < 4 PI (exact rem_euclid model)", [ST + "so2_state.rs::SO2State::new", ST + "so2_state.rs::SO2State::normalise"])
-h("so2_state_new_congruent", ["C12"], "proof", "complete", "SO2State::new(v) is congruent to v modulo 2 PI up to 4e-15; all v with |v + PI| < 4 PI", [ST + "so2_state.rs::SO2State::new"], tier="thorough", timeout=1200)
+h("so2_state_new_canonical", ["C12"], "proof", "complete", "SO2State::new(v) and normalise() return an angle in [-PI,PI]; all v with |v + PI| < 4 PI (exact rem_euclid model)", [ST + "so2_state.rs::SO2State::new", ST + "so2_state.rs::SO2State::normalise"], timeout=900)
+h("so2_state_new_congruent", ["C12"], "proof", "complete", "SO2State::new(v) is congruent to v modulo 2 PI up to 4e-15; all v with |v + PI| < 4 PI", [ST + "so2_state.rs::SO2State::new"], tier="thorough", timeout=1200, optional=True)
 h("so2_state_new_canonical_all_finite", ["C12"], "proof", "complete", "SO2State::new(v) is in [-PI,PI] for ALL finite v (uses only 0 <= rem_euclid(x, m) <= m)", [ST + "so2_state.rs::SO2State::new"])
 h("so3_normalise_contract", ["C12"], "proof", "complete", "SO3State::normalise: Err(ZeroMagnitude) <==> norm < 1e-9; otherwise every component divided by the norm (parallel); all finite quaternions (sqrt/powi contract stubs)", [ST + "so3_state.rs::SO3State::normalise"])
 
